@@ -576,6 +576,8 @@ inductive WOp
   | borrow (ai bi signer : Nat) (amount : Int)
   | repay (ai bi signer : Nat) (amount : Int) (all : Bool)
   | close (ai bi signer : Nat)
+  | bankruptcy (ai bi signer : Nat) (available : Int)
+  | liquidate (qi ei abi lbi signer : Nat) (amount : Int)   -- liquidator, liquidatee, collateral bank, debt bank
   | tick (dt : Nat)
 
 def WBank.riskB (b : WBank) : RiskB :=
@@ -583,6 +585,9 @@ def WBank.riskB (b : WBank) : RiskB :=
 
 def WState.ctx (w : WState) (a : AcctV) (b : WBank) (signer vault : Nat) (vaultAmount : Int) : Ctx :=
   { now := w.now, g := w.g, a, signer, b := b.v, vaultKey := vault, vaultAmount, risk := w.banks.map WBank.riskB }
+
+def WState.liqCtx (w : WState) (lq le : AcctV) (ab lb : WBank) (signer : Nat) : LiqCtx :=
+  { now := w.now, g := w.g, lq, le, signer, ab := ab.v, lb := lb.v, risk := w.banks.map WBank.riskB }
 
 /-- the active slot an account holds in a bank (what a closure abandons is read from it) -/
 def slotOf (a : AcctV) (key : Nat) : Account.Slot :=
@@ -593,13 +598,20 @@ def slotOf (a : AcctV) (key : Nat) : Account.Slot :=
 def bump (f : Nat → Int) (k : Nat) (d : Int) : Nat → Int := fun j => if j = k then f j + d else f j
 
 /-- commit the outcome of an instruction on account `ai` and bank `bi` -/
-def WState.commit (w : WState) (ai bi : Nat) (a : AcctV) (b : WBank) (o : Out) (dA dL : Int) : WState :=
+def WState.commit (w : WState) (ai bi : Nat) (a : AcctV) (b : WBank) (slots : List Account.Slot) (flags : Nat)
+    (books : Bank.Bank) (opState : Int) (window : Admin.Window) (dA dL : Int) : WState :=
   { w with
-    g := { w.g with window := o.window },
-    accts := w.accts.set ai { a with slots := o.slots },
-    banks := w.banks.set bi { b with v := { b.v with books := o.books } },
+    g := { w.g with window },
+    accts := w.accts.set ai { a with slots, flags },
+    banks := w.banks.set bi { b with v := { b.v with books, opState } },
     dustA := bump w.dustA b.v.key dA,
     dustL := bump w.dustL b.v.key dL }
+
+/-- commit a liquidation: two accounts, two banks -/
+def WState.commit2 (w : WState) (qi ei abi lbi : Nat) (lq le : AcctV) (ab lb : WBank) (o : LiqOutW) : WState :=
+  { w with
+    accts := (w.accts.set qi { lq with slots := o.lqSlots }).set ei { le with slots := o.leSlots },
+    banks := (w.banks.set abi { ab with v := { ab.v with books := o.assetBooks } }).set lbi { lb with v := { lb.v with books := o.liabBooks } } }
 
 def WState.step (w : WState) (op : WOp) : WState :=
   let go (ai bi signer : Nat) (vaultAmount : Int) (run : Ctx → Res Out) (dust : Account.Slot → Int × Int) : WState :=
@@ -607,7 +619,7 @@ def WState.step (w : WState) (op : WOp) : WState :=
     | some a, some b =>
       -- (the instruction is given the bank's own liquidity vault: substitutions are refused by the account checks)
       match run (w.ctx a b signer b.v.liquidityVault vaultAmount) with
-      | .ok o => let d := dust (slotOf a b.v.key); w.commit ai bi a b o d.1 d.2
+      | .ok o => let d := dust (slotOf a b.v.key); w.commit ai bi a b o.slots a.flags o.books b.v.opState o.window d.1 d.2
       | .error _ => w
     | _, _ => w
   match op with
@@ -616,6 +628,21 @@ def WState.step (w : WState) (op : WOp) : WState :=
   | .borrow ai bi signer amount => go ai bi signer 0 (fun c => borrow c amount) (fun _ => (0, 0))
   | .repay ai bi signer amount all => go ai bi signer 0 (fun c => repay c amount all) (fun s => (if all then s.a else 0, 0))
   | .close ai bi signer => go ai bi signer 0 (fun c => closeBalance c) (fun s => (s.a, s.l))
+  | .bankruptcy ai bi signer available =>
+    match w.accts[ai]?, w.banks[bi]? with
+    | some a, some b =>
+      match bankruptcy (w.ctx a b signer b.v.liquidityVault 0) available with
+      | .ok o => w.commit ai bi a b o.slots o.flags o.books o.opState w.g.window 0 0
+      | .error _ => w
+    | _, _ => w
+  | .liquidate qi ei abi lbi signer amount =>
+    if qi = ei ∨ abi = lbi then w else
+    match w.accts[qi]?, w.accts[ei]?, w.banks[abi]?, w.banks[lbi]? with
+    | some lq, some le, some ab, some lb =>
+      match liquidate (w.liqCtx lq le ab lb signer) amount with
+      | .ok o => w.commit2 qi ei abi lbi lq le ab lb o
+      | .error _ => w
+    | _, _, _, _ => w
   | .tick dt => { w with now := w.now + dt }
 
 def WState.run (w : WState) (ops : List WOp) : WState := ops.foldl WState.step w
